@@ -183,11 +183,8 @@ class Elastic(_Simu):
 
         u = results["displacement"]
 
-        if (
-            self.algo in AlgoType.Get_Hyperbolic_Types()
-            and "speed" in results
-            and "accel" in results
-        ):
+        if "speed" in results and "accel" in results:
+            # stored with the iteration: restored whatever the time scheme has become since
             v = results["speed"]
             a = results["accel"]
         else:
